@@ -1431,7 +1431,8 @@ class C20:
         tgts = free_t[:re_.randint(0, 2)]
         fl = [l for l in spec.leaves if spec.leaf_type[l] == "f" and l not in tgts]
         il = [l for l in spec.leaves if spec.leaf_type[l] == "i" and l not in tgts]
-        lists = [p for p, ct in spec.containers.items() if ct in ("list", "nplist") and not any(t[:len(p)] == p for t in tgts)]
+        lists = [p for p, ct in spec.containers.items() if ct in ("list", "nplist") and not any(t[:len(p)] == p for t in tgts)
+                 and all(c in spec.leaf_type for c in spec.children[p])]
         for tgt in tgts:
             k = re_.choice(["negshift", "floatshift", "badindex", "roundfloat"])
             if k == "negshift" and il:
